@@ -82,7 +82,8 @@ H("modes_recv_after_try", ["C10"], sym="none (call sequence)", bounds="unwind 8"
 for n in ["recv_att_1s", "recv_att_2s_1r", "recv_att_2s_2r_multi", "recv_att_1s_multi25"]:
     H(n, ["C04"], sym="payload bytes and probe bytes symbolic; layout (sockets, regions, packets) concrete; packets injected as send_plan shows the sender emits them",
       bounds="unwind 6; <= 2 sockets + 2 regions; 1..3 packets")
-for n in ["transit_queued_small", "transit_queued_multi", "transit_carrier_dropped_small", "transit_carrier_dropped_multi", "transit_unpacked_small", "transit_unpacked_multi"]:
+for n in ["transit_queued_small", "transit_queued_multi", "transit_carrier_dropped_small", "transit_carrier_dropped_multi", "transit_unpacked_small", "transit_unpacked_multi",
+          "transit_unpacked_fd0_dropped_small", "transit_unpacked_fd0_dropped_multi"]:
     H(n, ["C09"], sym="payload bytes symbolic; scenario and shape (3 / 57 bytes) concrete; the travelling receiver is injected by plain system calls", bounds="unwind 6")
 for n in ["crash_after_0_nosurv", "crash_after_1_nosurv", "crash_after_2_nosurv_try", "crash_after_3_nosurv", "crash_after_1_surv", "crash_after_2_surv_try", "crash_after_3_surv"]:
     H(n, ["C12"], sym="payload bytes symbolic; the dying sender's packets are the prefixes (0..3 packets) of the 3-packet plan, then all its descriptors are closed; survivor handle and observer (recv / try_recv) concrete",
@@ -184,3 +185,10 @@ PROPERTIES = {
         outside="AddressSanitizer semantics proper (CBMC's memory model stands in); allocation failure (Kani: malloc never fails); 'every byte written' beyond the byte-exact round trips (-Z uninit-checks ICEs in this Kani)",
         assumptions=[_A_KQ]),
 }
+
+for n in ["send_many_64_frag", "send_many_64_enobufs", "send_many_63_frag"]:
+    HARNESSES[n]["props"].append("C04")
+
+# failed multi-packet sends must not leak (ledger of these harnesses is C11 evidence proper)
+for n in ["gone_dropped_multi_att", "gone_dropped_small_att", "transit_carrier_dropped_multi"]:
+    HARNESSES[n]["props"].append("C11")
